@@ -62,6 +62,26 @@ PROPS["C12"] = dict(
     assumptions=["crash = transaction discarded (before commit) or committed (after commit), then the manager is dropped and the store reopened", "exhaustive refers to the fault points of the target operation of each generated history, not to the space of histories"],
 )
 
+PROPS["C04"] = dict(
+    pkgs=[KS], level="exploration", death_is_violation=True, env={"VERIF_LOGLEVEL": "trace"},
+    quick=dict(checks=240, shards=16, timeout=500),
+    thorough=dict(checks=6000, shards=16, timeout=2400),
+    technique="property-based testing: rapid-generated wallet histories; byte search of store files, logical store dump, exports and trace-level logs for secrets collected in-package, with positive control and decrypt-chain oracle",
+    level_text="After every step of generated histories every artefact the property names (store bytes, exports, logs) is searched for every secret that exists at that moment, in the encodings a careless write would produce; the scanner is validated by a positive control in the same run. Exploration: finds leaks of the searched encodings only.",
+    level_note="Trusted: the list of encodings searched (raw, hex, HEX, Go %v, decimal, base58 xprv); secrets are collected from the in-memory fields of the pinned tree and recomputed from seeds with the package's own derivation; secretbox/scrypt assumed sound.",
+    assumptions=["a leak in an encoding outside the searched set (e.g. base64, compressed) would be missed", "log output is captured through the node's logging package at trace level into a scratch directory"],
+)
+
+PROPS["C14"] = dict(
+    pkgs=[KS], level="exploration", race=True, death_is_violation=True, engine="rapid-harness+race-detector+porcupine",
+    quick=dict(checks=640, shards=16, timeout=500),
+    thorough=dict(checks=24000, shards=16, timeout=2400),
+    technique="property-based generation of concurrent programs; oracles: Go race detector (reports attributed to repository frames), porcupine linearizability checker against a sequential wallet model, reopen equality",
+    level_text="Randomly generated concurrent programs are executed for real (no schedule control inside the wallet's mutexes); data races are found when both accesses occur in a run (not only when they collide), atomicity violations when the recorded history has no linearization. Exploration: interleavings are sampled, not enumerated.",
+    level_note="Trusted: the Go race detector, porcupine, the sequential model in zz_verif_c14_test.go. Races inside mass-core's logging package (both frames foreign) are counted and ignored.",
+    assumptions=["the harness does not own the schedule; GOMAXPROCS and yields are varied", "redundant Unlock on an unlocked wallet may fail (unspecified by the properties)"],
+)
+
 META = dict(
     na_default="check not built yet in this session (work in progress; see DESIGN.md §4) - not a claim that the technique cannot apply",
     hooks=dict(guard="verif", enable="go test -tags verif (the driver ./check always builds with -tags verif through -overlay/-modfile, see DESIGN.md §2.2)",
